@@ -14,7 +14,7 @@ from ..frontend import AnalysisBroken
 from ..model import qt, loc_str, walk, inner, desugared
 from ..expr import canon, pretty, children, strip, callee_info, subterms, CALL_KINDS, ref_decl
 from ..cfg import cfg_of
-from .common import CQ, short
+from .common import CQ, short, expand_locals
 
 EXPLANATION = (
     "Static typing check on the clang-resolved AST of net_model.cpp/.hpp, place_global.cpp and coloquinte.hpp/.cpp. "
@@ -305,11 +305,13 @@ def run(ctx, rep, tier):
     rep.rule("QT", "weight path is floating-point end to end; no float-to-int conversion of a weight-carrying value", 6)
     rep.rule("QD", "matrix coefficients, rhs increments and pin weights are homogeneous of degree 1 in (weights, penalties)", 20)
     rep.rule("QR", "the degree-0 regulariser only touches rows without any weighted entry", 3)
+    rep.rule("PE", "every cell gets its penalty spring and every net its own pin count: no term dropped by a position test, no model-wide count in a per-net weight", 2)
     rep.rule("PV", "net weight provenance Circuit -> NetModel::netWeight_ (explicit forwarding, no default)", 5)
     check_qt(ctx, rep)
     check_qd(ctx, rep)
     check_qh(ctx, rep)
     check_pv(ctx, rep)
+    check_terms(ctx, rep)
 
 
 # ---- QT --------------------------------------------------------------------
@@ -635,7 +637,7 @@ def check_pv(ctx, rep):
                                   key="%s|weight not forwarded" % f.short)
                 else:
                     rep.holds("PV", x, f, "nested addNet forwards weight")
-            if ci["name"] == "push_back" and ci["obj"] is not None and canon(ci["obj"]) == ("field", CQ + "NetModel::netWeight_", ("this",)):
+            if ci["name"] in ("push_back", "emplace_back") and ci["obj"] is not None and canon(ci["obj"]) == ("field", CQ + "NetModel::netWeight_", ("this",)):
                 ac = canon(ci["args"][0])
                 if wp and ac[:2] == ("var", wp[0].get("id")):
                     rep.holds("PV", x, f, "netWeight_.push_back(weight)")
@@ -646,3 +648,67 @@ def check_pv(ctx, rep):
     if not stored:
         rep.violation("PV", "-", None, "no overload stores the weight parameter into netWeight_", "weights never reach the model",
                       key="NetModel::addNet|weight never stored")
+
+
+def check_terms(ctx, rep):
+    """PE. (a) MatrixCreator::addPenalty adds one spring per cell in a loop over all cells; the spring's stiffness is what pulls the
+    cell to its target, so it must be added whatever the current distance is: a skip decided on the placements (`dist == 0`:
+    "already there") drops the stiffness and the solution is no longer the optimum of the documented model. (b) In a function that
+    builds the terms of *one* net (it has a net-index parameter used in nbPins(net) / netWeight(net)) the weight of that net is never
+    divided by the pin count of the whole model (the argument-less nbPins())."""
+    prog = ctx.prog
+    MC = CQ + "MatrixCreator"
+    fs = prog.func(MC + "::addPenalty", required=False) or []
+    n = 0
+    for f in fs:
+        pos = {p.get("id"): p.get("name") for p in f.params[:2]}
+        for x in walk(f.body):
+            if x.get("kind") not in ("CXXMemberCallExpr", "CallExpr"):
+                continue
+            ci = callee_info(x)
+            if not ci or ci["name"] not in ("addFixedPin", "addPin", "addMovingPin"):
+                continue
+            n += 1
+            bad = []
+            for gc, val, ast, _b in (ctx.guards(f, x) or []):
+                ge = expand_locals(ctx, f, gc)
+                if any(isinstance(t, tuple) and t and t[0] == "var" and t[1] in pos for t in subterms(ge)):
+                    bad.append(gc)
+            what = "addPenalty: the spring of cell i (%s)" % ci["name"]
+            if bad:
+                rep.violation("PE", x, f, what, "is added only under %s, a test on the current / target placement: for the cells it excludes the "
+                              "penalty strength has no effect at all" % [pretty(b_)[:50] for b_ in bad], key="MatrixCreator::addPenalty|spring skipped on a position test")
+            else:
+                rep.holds("PE", x, f, what, "added whatever the current distance to the target is")
+    if n == 0:
+        rep.unknown("PE", None, None, "MatrixCreator::addPenalty", "no spring-adding call found (shape changed)")
+    m = 0
+    for f in prog.funcs.values():
+        if f.cls != MC or f.body is None:
+            continue
+        netp = [p for p in f.params if qt(p).replace("const ", "").strip() == "int"]
+        pern = set()
+        total = []
+        for x in walk(f.body):
+            if x.get("kind") == "CXXMemberCallExpr":
+                ci = callee_info(x)
+                if ci and ci["qname"].startswith(CQ + "NetModel::"):
+                    args = [canon(a_) for a_ in ci["args"]]
+                    if ci["name"] in ("nbPins", "netWeight", "pinCell", "pinOffset") and args and args[0][0] == "var" and \
+                            any(args[0][1] == p.get("id") for p in netp):
+                        pern.add(args[0][1])
+                    if ci["name"] == "nbPins" and not args:
+                        total.append(x)
+        if not pern:
+            continue
+        for x in total:
+            p = x.get("_p")
+            while p is not None and p.get("kind") in ("ImplicitCastExpr", "ParenExpr", "CStyleCastExpr", "CXXStaticCastExpr"):
+                p = p.get("_p")
+            if p is not None and p.get("kind") in ("BinaryOperator", "CompoundAssignOperator") and p.get("opcode") in ("/", "/=", "*", "*="):
+                m += 1
+                rep.violation("PE", x, f, "%s scales a per-net term by nbPins(), the pin count of the whole model" % f.short,
+                              "the weight of a star / clique of one net is divided by that net's own pin count nbPins(net): with the model-wide count "
+                              "nets of different degree are weighted wrongly against each other", key="%s|model-wide pin count in a per-net weight" % f.short)
+    if m == 0:
+        rep.holds("PE", "src/place_global/net_model.cpp", None, "no per-net weight is scaled by the pin count of the whole model")
